@@ -32,6 +32,7 @@ def level_of(b):
 
 
 class BinsOne(Case):
+    no_summaries = ("util.bins.bins",)  # these cases verify the real body
     props = ("C16", "C09")
     func = "util.bins.bins"
 
@@ -78,6 +79,7 @@ class BinsNeverHide(Case):
     """The bin set of a query range contains the assigned bin of every interval contained in or overlapping it."""
     props = ("C16", "C09")
     func = "util.bins.bins"
+    no_summaries = ("util.bins.bins",)
 
     def __init__(self, fmt):
         self.fmt = fmt
